@@ -91,16 +91,28 @@ Proof. intros H k a. unfold deploy_fsas. destruct (lookup n fsas) eqn:E; auto. s
 Lemma state_eqb_refl s : state_eqb s s = true.
 Proof. apply state_eqb_eq. reflexivity. Qed.
 
-Lemma deploy_lv_canon m b n L fsas : exists L', deploy_lv m b n (canon_lv m b L) fsas = canon_lv m b L' /\ (L <= L')%nat /\ (n <= L')%nat.
+Definition lv_ok m b (lv : list arr) (L : nat) : Prop := (lv = [] /\ L = 0%nat) \/ lv = canon_lv m b L.
+Lemma deploy_lv_ok m b n lv L fsas : lv_ok m b lv L ->
+  exists L', lv_ok m b (deploy_lv true m b n lv fsas) L' /\ (L <= L')%nat /\ (n <= L')%nat.
 Proof.
-  unfold deploy_lv. rewrite canon_lv_length. cbn [pred]. destruct (n <=? L)%nat eqn:E.
-  - apply Nat.leb_le in E. exists L. auto.
-  - apply Nat.leb_gt in E. exists n. split; [|lia].
-    change (match canon_lv m b L with [] => [cur0 m fsas] | _ :: _ => canon_lv m b L end) with (canon_lv m b L).
-    apply canon_lv_extend. lia.
+  intros [[-> ->]| ->]; unfold deploy_lv.
+  - cbn [length pred]. destruct n as [|n]. exists 0%nat. cbn. split; [left; auto|lia].
+    exists (S n). split; [right; reflexivity|lia].
+  - rewrite canon_lv_length. cbn [pred]. destruct (n <=? L)%nat eqn:E.
+    + apply Nat.leb_le in E. exists L. split; [right; reflexivity|lia].
+    + apply Nat.leb_gt in E. exists n. split; [|lia]. right.
+      change (match canon_lv m b L with [] => [if true then fsarray m 0 None else cur0 m fsas] | _ :: _ => canon_lv m b L end) with (canon_lv m b L).
+      apply canon_lv_extend. lia.
 Qed.
-Lemma deploy_lv_empty m b n : (1 <= n)%nat -> deploy_lv m b n [] [] = canon_lv m b n.
-Proof. intros H. unfold deploy_lv. cbn [length pred]. destruct n as [|n]; [lia|]. reflexivity. Qed.
+Lemma lv_ok_no_crash m b lv L n : lv_ok m b lv L -> (n <= L)%nat -> crash_lv (firstn (S n) lv) = false.
+Proof. intros [[-> ->]| ->] H. reflexivity. rewrite firstn_canon by exact H. apply canon_lv_no_crash. Qed.
+Lemma deploy_lv_fixC_eq m mi n lv fsas : (lv = [] -> fsas = []) ->
+  deploy_lv false m mi n lv fsas = deploy_lv true m mi n lv fsas.
+Proof. intros H. unfold deploy_lv. destruct lv; [rewrite (H eq_refl); reflexivity|reflexivity]. Qed.
+Lemma deploy_lv_nonempty c m mi n lv fsas : (1 <= n)%nat -> deploy_lv c m mi n lv fsas <> [].
+Proof. intros H. unfold deploy_lv. destruct lv as [|a lv]; cbn [length pred].
+  - destruct n; [lia|]. cbn. discriminate.
+  - destruct (n <=? length lv)%nat; discriminate. Qed.
 
 (* =============================== SLOS: the repaired machine =============================== *)
 Section SlosP.
@@ -109,7 +121,7 @@ Variable R : cring.
 Definition CacheInv (s : sst R) : Prop :=
   match s_built s with
   | None => s_lv s = [] /\ s_fsas s = [] /\ s_paths s = [] /\ s_iter s = []
-  | Some b => exists m U L, s_circ s = Some (m, U) /\ s_lv s = canon_lv m b L /\
+  | Some b => exists m U L, s_circ s = Some (m, U) /\ lv_ok m b (s_lv s) L /\
       (forall k a, lookup k (s_fsas s) = Some a -> a = fsarray m k b) /\
       (forall k a, lookup k (s_iter s) = Some a -> a = fsarray m k b) /\
       (forall st U', lookup_st st (s_paths s) = Some U' ->
@@ -121,56 +133,52 @@ Definition CfgInv (s : sst R) : Prop :=
   (forall mks, s_masks s = Some mks -> masks_wf mks = true) /\
   (forall m U, s_circ s = Some (m, U) -> (1 <= m)%nat) /\
   (forall st, s_in s = Some st -> exists m U, s_circ s = Some (m, U) /\ length st = m /\
-       mask_len_ok m (s_masks s) = true /\ (1 <= total st)%nat /\
+       mask_len_ok m (s_masks s) = true /\
        s_mask s = inst_of (s_masks s) (s_mask_n s) (total st) /\
        s_built s = Some (s_mask s) /\ lookup_st st (s_paths s) <> None).
 Definition Inv (s : sst R) : Prop := CfgInv s /\ CacheInv s.
 
 Lemma preprocess_ok s m U st :
-  CacheInv s -> s_circ s = Some (m, U) -> (1 <= total st)%nat -> s_dead s = false ->
+  CacheInv s -> s_circ s = Some (m, U) -> s_dead s = false ->
   (s_built s = None \/ s_built s = Some (s_mask s)) ->
-  CacheInv (preprocess s m U st) /\ s_dead (preprocess s m U st) = false /\
-  s_built (preprocess s m U st) = Some (s_mask s) /\ lookup_st st (s_paths (preprocess s m U st)) <> None /\
-  s_circ (preprocess s m U st) = s_circ s /\ s_in (preprocess s m U st) = s_in s /\
-  s_masks (preprocess s m U st) = s_masks s /\ s_mask_n (preprocess s m U st) = s_mask_n s /\
-  s_mask (preprocess s m U st) = s_mask s.
+  CacheInv (preprocess true s m U st) /\ s_dead (preprocess true s m U st) = false /\
+  s_built (preprocess true s m U st) = Some (s_mask s) /\ lookup_st st (s_paths (preprocess true s m U st)) <> None /\
+  s_circ (preprocess true s m U st) = s_circ s /\ s_in (preprocess true s m U st) = s_in s /\
+  s_masks (preprocess true s m U st) = s_masks s /\ s_mask_n (preprocess true s m U st) = s_mask_n s /\
+  s_mask (preprocess true s m U st) = s_mask s.
 Proof.
-  intros HC Hc Hn Hd Hb. unfold preprocess. destruct (lookup_st st (s_paths s)) as [U0|] eqn:El.
+  intros HC Hc Hd Hb. unfold preprocess. destruct (lookup_st st (s_paths s)) as [U0|] eqn:El.
   - split; [exact HC|]. split; [exact Hd|]. split.
     + destruct Hb as [Hb|Hb]; [|exact Hb]. unfold CacheInv in HC. rewrite Hb in HC.
       destruct HC as (_ & _ & Hp & _). rewrite Hp in El. discriminate.
     + split. congruence. repeat split; reflexivity.
   - cbv zeta. cbn [s_circ s_in s_masks s_mask_n s_mask s_lv s_fsas s_paths s_iter s_built s_dead].
-    destruct Hb as [Hb|Hb].
-    + unfold CacheInv in HC. rewrite Hb in HC. destruct HC as (Hlv & Hf & Hp & Hi).
-      rewrite Hlv, Hf, Hp, Hb. rewrite deploy_lv_empty by exact Hn.
-      rewrite firstn_canon by lia. rewrite canon_lv_no_crash, Hd.
-      split; [|repeat split; try reflexivity].
-      * unfold CacheInv. cbn [s_circ s_in s_masks s_mask_n s_mask s_lv s_fsas s_paths s_iter s_built s_dead].
-        exists m, U, (total st). split; [exact Hc|]. split; [reflexivity|]. split; [|split].
-        -- intros k a. unfold deploy_fsas. simpl. destruct (k =? total st)%nat eqn:Ek; [|discriminate].
-           apply Nat.eqb_eq in Ek. subst k. congruence.
-        -- intros k a. rewrite Hi. simpl. discriminate.
-        -- intros st' U'. simpl. destruct (state_eqb st' st) eqn:Es; [|discriminate]. intros X.
-           apply state_eqb_eq in Es. subst st'. split; [congruence|]. split; [lia|].
-           unfold deploy_fsas. simpl. rewrite Nat.eqb_refl. discriminate.
-      * simpl. rewrite state_eqb_refl. discriminate.
-    + unfold CacheInv in HC. rewrite Hb in HC. destruct HC as (m0 & U0 & L & Hc0 & Hlv & Hf & Hi & Hp).
-      assert (m0 = m /\ U0 = U) as [-> ->] by (rewrite Hc in Hc0; inversion Hc0; auto).
-      rewrite Hlv, Hb, Hd.
-      destruct (deploy_lv_canon m (s_mask s) (total st) L (s_fsas s)) as (L' & HL' & HLL & HnL).
-      rewrite HL'. rewrite firstn_canon by exact HnL. rewrite canon_lv_no_crash.
-      split; [|repeat split; try reflexivity].
-      * unfold CacheInv. cbn [s_circ s_in s_masks s_mask_n s_mask s_lv s_fsas s_paths s_iter s_built s_dead].
-        exists m, U, L'. split; [exact Hc|]. split; [reflexivity|]. split; [|split].
-        -- apply lookup_deploy_sound. exact Hf.
-        -- exact Hi.
-        -- intros st' U'. simpl. destruct (state_eqb st' st) eqn:Es.
-           ++ intros X. apply state_eqb_eq in Es. subst st'. split; [congruence|]. split; [exact HnL|].
-              apply lookup_deploy_self.
-           ++ intros X. destruct (Hp st' U' X) as (H1 & H2 & H3). split; [exact H1|]. split; [lia|].
-              apply lookup_deploy_mono. exact H3.
-      * simpl. rewrite state_eqb_refl. discriminate.
+    assert (G : exists L, lv_ok m (s_mask s) (s_lv s) L /\
+              (forall k a, lookup k (s_fsas s) = Some a -> a = fsarray m k (s_mask s)) /\
+              (forall k a, lookup k (s_iter s) = Some a -> a = fsarray m k (s_mask s)) /\
+              (forall st' U', lookup_st st' (s_paths s) = Some U' ->
+                 U' = U /\ (total st' <= L)%nat /\ lookup (total st') (s_fsas s) <> None)).
+    { destruct Hb as [Hb|Hb]; unfold CacheInv in HC; rewrite Hb in HC.
+      - destruct HC as (Hlv & Hf & Hp & Hi). exists 0%nat. rewrite Hlv, Hf, Hp, Hi.
+        split; [left; auto|]. repeat split; intros; simpl in *; discriminate.
+      - destruct HC as (m0 & U0 & L & Hc0 & Hlv & Hf & Hi & Hp). rewrite Hc in Hc0. injection Hc0 as E1 E2. subst m0 U0.
+        exists L. auto. }
+    destruct G as (L & Hlv & Hf & Hi & Hp).
+    assert (Eb : match s_built s with Some b => Some b | None => Some (s_mask s) end = Some (s_mask s))
+      by (destruct Hb as [Hb|Hb]; rewrite Hb; reflexivity).
+    destruct (deploy_lv_ok m (s_mask s) (total st) (s_lv s) L (s_fsas s) Hlv) as (L' & HL' & HLL & HnL).
+    rewrite (lv_ok_no_crash m (s_mask s) _ L' (total st) HL' HnL), Hd, Eb.
+    split; [|repeat split; try reflexivity].
+    + unfold CacheInv. cbn [s_circ s_in s_masks s_mask_n s_mask s_lv s_fsas s_paths s_iter s_built s_dead].
+      exists m, U, L'. split; [exact Hc|]. split; [exact HL'|]. split; [|split].
+      * apply lookup_deploy_sound. exact Hf.
+      * exact Hi.
+      * intros st' U'. simpl. destruct (state_eqb st' st) eqn:Es.
+        -- intros X. apply state_eqb_eq in Es. subst st'. split; [congruence|]. split; [exact HnL|].
+           apply lookup_deploy_self.
+        -- intros X. destruct (Hp st' U' X) as (H1 & H2 & H3). split; [exact H1|]. split; [lia|].
+           apply lookup_deploy_mono. exact H3.
+    + simpl. rewrite state_eqb_refl. discriminate.
 Qed.
 
 Lemma lookup_st_map (U : mat R) st l :
@@ -179,7 +187,7 @@ Proof. induction l as [|e l IH]; simpl. reflexivity. destruct (state_eqb st (fst
 
 Ltac projs := cbn [s_circ s_in s_masks s_mask_n s_mask s_lv s_fsas s_paths s_iter s_built s_dead with_cfg sreset].
 
-Lemma inv_circ s m U : Inv s -> slegal s (OCirc m U) = true -> Inv (fst (sstep R true true s (OCirc m U))).
+Lemma inv_circ s m U : Inv s -> slegal s (OCirc m U) = true -> Inv (fst (sstep R true true true s (OCirc m U))).
 Proof.
   intros [(Hd & Hm0 & Hwf & Hm1 & Hin) HCa] Hl. unfold sstep. rewrite Hl, Hd. cbn [negb fst].
   unfold slegal in Hl. apply Nat.leb_le in Hl.
@@ -202,9 +210,9 @@ Proof.
     + unfold CacheInv. projs. auto.
 Qed.
 
-Lemma inv_in s st : Inv s -> slegal s (OIn st) = true -> (1 <= total st)%nat -> Inv (fst (sstep R true true s (OIn st))).
+Lemma inv_in s st : Inv s -> slegal s (OIn st) = true -> Inv (fst (sstep R true true true s (OIn st))).
 Proof.
-  intros [(Hd & Hm0 & Hwf & Hm1 & Hin) HCa] Hl Hn. unfold sstep. rewrite Hl, Hd. cbn [negb].
+  intros [(Hd & Hm0 & Hwf & Hm1 & Hin) HCa] Hl. unfold sstep. rewrite Hl, Hd. cbn [negb].
   simpl in Hl. destruct (s_circ s) as [[m U]|] eqn:Hc; [|discriminate].
   apply andb_prop in Hl as [Hlen Hml]. apply Nat.eqb_eq in Hlen. cbn [fst andb].
   set (newmask := match s_masks s with None => s_mask s | Some _ => inst_of (s_masks s) (s_mask_n s) (total st) end).
@@ -223,7 +231,7 @@ Proof.
       + cbn [negb]. unfold CacheInv. projs. repeat split; auto.
     - unfold CacheInv in *. projs. rewrite Hb in *. repeat split; auto; apply HCa. }
   destruct H2 as (HC2 & Hc2 & Hd2 & Hb2 & Hmk2 & Hms2 & Hmn2 & Hin2).
-  destruct (preprocess_ok s2 m U st HC2 Hc2 Hn Hd2 Hb2) as (P1 & P2 & P3 & P4 & P5 & P6 & P7 & P8 & P9).
+  destruct (preprocess_ok s2 m U st HC2 Hc2 Hd2 Hb2) as (P1 & P2 & P3 & P4 & P5 & P6 & P7 & P8 & P9).
   split; [|exact P1].
   split; [exact P2|]. split.
   { rewrite P7, P9, Hms2, Hmk2. intros X. rewrite Hnm, X. reflexivity. }
@@ -239,24 +247,24 @@ Lemma inv_remask s masks mask_n :
   (forall st, s_in s = Some st -> mask_len_ok (length st) masks = true) ->
   let mk := match s_in s with Some st => inst_of masks mask_n (total st) | None => None end in
   let s1 := with_cfg (sreset s) (s_circ s) (s_in s) masks mask_n mk in
-  Inv (match s_in s, s_circ s with Some st, Some (m, U) => preprocess s1 m U st | _, _ => s1 end).
+  Inv (match s_in s, s_circ s with Some st, Some (m, U) => preprocess true s1 m U st | _, _ => s1 end).
 Proof.
   intros [(Hd & Hm0 & Hwf & Hm1 & Hin) HCa] Hw Hlen mk s1.
   assert (HC1 : CacheInv s1) by (unfold CacheInv, s1; projs; auto).
   destruct (s_in s) as [st|] eqn:Ein.
-  - destruct (Hin st eq_refl) as (m & U & Hc & Hl & _ & Hn & _).
+  - destruct (Hin st eq_refl) as (m & U & Hc & Hl & _).
     rewrite Hc.
     assert (Hc1 : s_circ s1 = Some (m, U)) by (unfold s1; projs; exact Hc).
     assert (Hd1 : s_dead s1 = false) by (unfold s1; projs; exact Hd).
     assert (Hb1 : s_built s1 = None \/ s_built s1 = Some (s_mask s1)) by (left; reflexivity).
-    destruct (preprocess_ok s1 m U st HC1 Hc1 Hn Hd1 Hb1) as (P1 & P2 & P3 & P4 & P5 & P6 & P7 & P8 & P9).
+    destruct (preprocess_ok s1 m U st HC1 Hc1 Hd1 Hb1) as (P1 & P2 & P3 & P4 & P5 & P6 & P7 & P8 & P9).
     split; [|exact P1]. unfold CfgInv. rewrite P2, P3, P5, P6, P7, P8, P9. unfold s1 at 1 2 3 4 5 6 7 8 9 10. projs.
     split; [reflexivity|]. split.
     { intros X. unfold mk. rewrite X. reflexivity. }
     split; [exact Hw|]. split; [exact Hm1|].
     intros st' X. inversion X. subst st'. exists m, U. split; [exact Hc|]. split; [exact Hl|].
     split. { rewrite <- Hl. apply Hlen. reflexivity. }
-    split; [exact Hn|]. split; [reflexivity|]. split; [reflexivity|exact P4].
+    split; [reflexivity|]. split; [reflexivity|exact P4].
   - split; [|destruct (s_circ s) as [[? ?]|]; exact HC1].
     assert (E : (match s_circ s with Some (m, U) => s1 | None => s1 end) = s1) by (destruct (s_circ s) as [[? ?]|]; reflexivity).
     replace (match s_circ s with Some (_, _) => s1 | None => s1 end) with s1.
@@ -264,7 +272,7 @@ Proof.
     intros st X. discriminate.
 Qed.
 
-Lemma inv_mask s mks n : Inv s -> slegal s (OMask mks n) = true -> Inv (fst (sstep R true true s (OMask mks n))).
+Lemma inv_mask s mks n : Inv s -> slegal s (OMask mks n) = true -> Inv (fst (sstep R true true true s (OMask mks n))).
 Proof.
   intros HI Hl. pose proof HI as [(Hd & _) _]. unfold sstep. rewrite Hl, Hd. cbn [negb fst].
   unfold slegal in Hl. apply andb_prop in Hl as [Hw Hlen].
@@ -272,7 +280,7 @@ Proof.
   - intros mks' X. inversion X. subst. exact Hw.
   - intros st X. rewrite X in Hlen. exact Hlen.
 Qed.
-Lemma inv_clear s : Inv s -> Inv (fst (sstep R true true s OClear)).
+Lemma inv_clear s : Inv s -> Inv (fst (sstep R true true true s OClear)).
 Proof.
   intros HI. pose proof HI as [(Hd & _) _]. unfold sstep. cbn [slegal negb]. rewrite Hd. cbn [fst].
   pose proof (inv_remask s None None HI) as H. cbn zeta in H.
@@ -299,13 +307,13 @@ Proof.
     + destruct HCa as (H1 & H2 & H3 & H4). repeat split; auto.
 Qed.
 
-Lemma inv_query s q : Inv s -> Inv (fst (sstep R true true s (OQuery q))).
+Lemma inv_query s q : Inv s -> Inv (fst (sstep R true true true s (OQuery q))).
 Proof.
   intros HI. pose proof HI as [(Hd & Hm0 & Hwf & Hm1 & Hin) HCa]. unfold sstep.
   destruct (slegal s (OQuery q)) eqn:Hl; [|exact HI]. cbn [negb].
   destruct (s_dead s) eqn:Hdd; [discriminate|].
   destruct (s_in s) as [st|] eqn:Ein; [|exact HI].
-  destruct (Hin st eq_refl) as (m & U & Hc & _ & _ & _ & Hmk & Hb & _).
+  destruct (Hin st eq_refl) as (m & U & Hc & _ & _ & Hmk & Hb & _).
   destruct (s_circ s) as [[m1 U1]|] eqn:Hc1; [|discriminate]. inversion Hc. subst m1 U1.
   assert (Hiter : forall fa U' (q' : squery), Inv (fst
      (if uses_iter q' && is_rows R (query_out m U' fa match lookup (total st) (s_iter s) with Some a => a | None => fsarray m (total st) (s_mask s) end (firstn (S (total st)) (s_lv s)) st q')
@@ -337,37 +345,45 @@ Qed.
 
 Lemma inv_init : Inv (sinit R).
 Proof. split. unfold CfgInv; simpl. repeat split; auto; intros; discriminate. unfold CacheInv; simpl; auto. Qed.
-Lemma inv_step s o : Inv s -> photonic o -> Inv (fst (sstep R true true s o)).
+Lemma inv_step s o : Inv s -> Inv (fst (sstep R true true true s o)).
 Proof.
-  intros HI Hp. destruct (slegal s o) eqn:Hl.
+  intros HI. destruct (slegal s o) eqn:Hl.
   - destruct o; [apply inv_circ | apply inv_in | apply inv_mask | apply inv_clear | apply inv_query]; auto.
   - unfold sstep. rewrite Hl. exact HI.
 Qed.
-Lemma inv_fold h : forall s, Inv s -> Forall (photonic (R:=R)) h -> Inv (fold_left (fun s o => fst (sstep R true true s o)) h s).
-Proof. induction h as [|o h IH]; intros s HI Hp; simpl. exact HI. inversion Hp; subst. apply IH; auto. apply inv_step; auto. Qed.
-Theorem inv_run h : Forall (photonic (R:=R)) h -> Inv (srun true true h).
+Lemma inv_fold h : forall s, Inv s -> Inv (fold_left (fun s o => fst (sstep R true true true s o)) h s).
+Proof. induction h as [|o h IH]; intros s HI; simpl. exact HI. apply IH. apply inv_step; auto. Qed.
+Theorem inv_run h : Inv (srun true true true h).
 Proof. apply inv_fold. apply inv_init. Qed.
 
+Lemma query_out_vac m (U : mat R) fa it lv lv' st q : total st = 0%nat ->
+  query_out m U fa it lv st q = query_out m U fa it lv' st q.
+Proof. intros H. unfold query_out, coef_vec. rewrite H. reflexivity. Qed.
 (* ---- what the invariant determines: the closed form of a configuration ---- *)
 Theorem inv_spec s st m U q : Inv s -> s_in s = Some st -> s_circ s = Some (m, U) ->
-  sobs true true s q = spec_obs R m U (s_mask s) st q.
+  sobs true true true s q = spec_obs R m U (s_mask s) st q.
 Proof.
   intros [(Hd & Hm0 & Hwf & Hm1 & Hin) HCa] Ein Hc. unfold sobs, sstep. cbn [slegal]. rewrite Ein, Hd, Hc. cbn [negb].
-  destruct (Hin st Ein) as (m' & U' & Hc' & _ & _ & Hn & Hmk & Hb & Hlk).
+  destruct (Hin st Ein) as (m' & U' & Hc' & _ & _ & Hmk & Hb & Hlk).
   unfold CacheInv in HCa. rewrite Hb in HCa. destruct HCa as (m0 & U0 & L & Hc0 & Hlv & Hf & Hi & Hp).
   rewrite Hc in Hc0. inversion Hc0. subst m0 U0.
   destruct (lookup_st st (s_paths s)) as [U1|] eqn:El; [|congruence].
   destruct (Hp st U1 El) as (HU & HL & Hfs). subst U1.
   destruct (lookup (total st) (s_fsas s)) as [fa|] eqn:Ef; [|congruence].
-  rewrite (Hf _ _ Ef). rewrite Hlv, firstn_canon by exact HL.
+  rewrite (Hf _ _ Ef).
+  assert (Hq : forall fa it q', query_out m U fa it (firstn (S (total st)) (s_lv s)) st q'
+                              = query_out m U fa it (canon_lv m (s_mask s) (total st)) st q').
+  { intros fa0 it0 q'. destruct Hlv as [[Hl0 HL0]|Hl1].
+    - apply query_out_vac. lia.
+    - rewrite Hl1, firstn_canon by exact HL. reflexivity. }
   assert (Hit : match lookup (total st) (s_iter s) with Some a => a | None => fsarray m (total st) (s_mask s) end
                 = fsarray m (total st) (s_mask s)).
   { destruct (lookup (total st) (s_iter s)) as [a|] eqn:Ei; [apply (Hi _ _ Ei)|reflexivity]. }
   unfold spec_obs. destruct q as [t| | |].
-  - destruct (negb (total st =? total t)%nat); reflexivity.
-  - rewrite Hit. reflexivity.
-  - reflexivity.
-  - rewrite Hit. reflexivity.
+  - destruct (negb (total st =? total t)%nat); [reflexivity|]. cbn [snd]. apply Hq.
+  - cbn [snd]. rewrite Hq, Hit. reflexivity.
+  - cbn [snd]. rewrite Hq, Hit. reflexivity.
+  - cbn [snd]. rewrite Hq, Hit. reflexivity.
 Qed.
 
 (* ---- the configuration is a function of the history alone ---- *)
@@ -388,9 +404,9 @@ Definition cfg_step (c : cfg4) (o : sop R) : cfg4 :=
   end.
 Definition cfg_fold (h : list (sop R)) : cfg4 := fold_left cfg_step h (None, None, None, None).
 
-Lemma preprocess_cfg s m U st : cfg_of (preprocess s m U st) = cfg_of s.
+Lemma preprocess_cfg c s m U st : cfg_of (preprocess c s m U st) = cfg_of s.
 Proof. unfold preprocess. destruct (lookup_st st (s_paths s)); reflexivity. Qed.
-Lemma query_cfg s q : cfg_of (fst (sstep R true true s (OQuery q))) = cfg_of s.
+Lemma query_cfg s q : cfg_of (fst (sstep R true true true s (OQuery q))) = cfg_of s.
 Proof.
   unfold sstep. destruct (negb (slegal s (OQuery q))); [reflexivity|]. destruct (s_dead s); [reflexivity|].
   destruct (s_in s) as [st|] eqn:Ein; [|reflexivity]. destruct (s_circ s) as [[m U]|] eqn:Hc; [|reflexivity].
@@ -405,7 +421,7 @@ Proof.
     cbn [fst]. match goal with |- context [if ?c then _ else _] => destruct c end; [|reflexivity].
     unfold cfg_of; projs. rewrite Ein, Hc. reflexivity.
 Qed.
-Lemma cfg_sstep s o : s_dead s = false -> cfg_of (fst (sstep R true true s o)) = cfg_step (cfg_of s) o.
+Lemma cfg_sstep s o : s_dead s = false -> cfg_of (fst (sstep R true true true s o)) = cfg_step (cfg_of s) o.
 Proof.
   intros Hd. destruct o as [m U|st|mks n| |q]; [| | | |apply query_cfg];
   unfold sstep, cfg_of at 2, cfg_step; cbn [slegal].
@@ -421,12 +437,12 @@ Proof.
     destruct (s_in s) as [st|]; [|reflexivity]. destruct (s_circ s) as [[m U]|]; [|reflexivity].
     rewrite preprocess_cfg. reflexivity.
 Qed.
-Lemma cfg_fold_gen h : forall s, Inv s -> Forall (photonic (R:=R)) h ->
-  cfg_of (fold_left (fun s o => fst (sstep R true true s o)) h s) = fold_left cfg_step h (cfg_of s).
-Proof. induction h as [|o h IH]; intros s HI Hp; simpl. reflexivity. inversion Hp; subst.
+Lemma cfg_fold_gen h : forall s, Inv s ->
+  cfg_of (fold_left (fun s o => fst (sstep R true true true s o)) h s) = fold_left cfg_step h (cfg_of s).
+Proof. induction h as [|o h IH]; intros s HI; simpl. reflexivity.
   rewrite IH by (auto using inv_step). rewrite cfg_sstep by apply HI. reflexivity. Qed.
-Theorem cfg_run h : Forall (photonic (R:=R)) h -> cfg_of (srun true true h) = cfg_fold h.
-Proof. intros Hp. apply (cfg_fold_gen h (sinit R) inv_init Hp). Qed.
+Theorem cfg_run h : cfg_of (srun true true true h) = cfg_fold h.
+Proof. apply (cfg_fold_gen h (sinit R) inv_init). Qed.
 
 Lemma cfg_canon s : Inv s ->
   fst (fst (fst (cfg_fold (scanon s)))) = s_circ s /\ snd (fst (fst (cfg_fold (scanon s)))) = s_in s /\
@@ -454,30 +470,20 @@ Proof.
         cbn [app fold_left cfg_step]. rewrite Hw. cbn [andb fst snd]. auto.
       * cbn [app fold_left fst snd]. repeat split; auto. congruence.
 Qed.
-Lemma canon_photonic s : Inv s -> Forall (photonic (R:=R)) (scanon s).
+(* For every history (illegal operations are rejected and leave the engine unchanged), what a query returns equals
+   what an engine built from the final configuration returns. *)
+Theorem repaired_history_free (h : list (sop R)) q :
+  sobs true true true (srun true true true h) q = sobs true true true (srun true true true (scanon (srun true true true h))) q.
 Proof.
-  intros [(Hd & Hm0 & Hwf & Hm1 & Hin) _]. unfold scanon. apply Forall_app; split.
-  - destruct (s_circ s) as [[m U]|]; repeat constructor.
-  - apply Forall_app; split.
-    + destruct (s_masks s); repeat constructor.
-    + destruct (s_in s) as [st|] eqn:Ein; [|constructor]. destruct (Hin st eq_refl) as (m & U & _ & _ & _ & Hn & _).
-      repeat constructor. exact Hn.
-Qed.
-
-(* For every history (of inputs carrying at least one photon; illegal operations are rejected and leave the
-   engine unchanged), what a query returns equals what an engine built from the final configuration returns. *)
-Theorem repaired_history_free h q : Forall (photonic (R:=R)) h ->
-  sobs true true (srun true true h) q = sobs true true (srun true true (scanon (srun true true h))) q.
-Proof.
-  intros Hp. set (s := srun true true h). assert (HI : Inv s) by (apply inv_run; exact Hp).
-  set (s' := srun true true (scanon s)).
-  assert (HI' : Inv s') by (apply inv_run; apply canon_photonic; exact HI).
-  pose proof (cfg_run (scanon s) (canon_photonic s HI)) as Hcfg. fold s' in Hcfg.
+  set (s := srun true true true h). assert (HI : Inv s) by apply inv_run.
+  set (s' := srun true true true (scanon s)).
+  assert (HI' : Inv s') by apply inv_run.
+  pose proof (cfg_run (scanon s)) as Hcfg. fold s' in Hcfg.
   destruct (cfg_canon s HI) as (C1 & C2 & C3 & C4). rewrite <- Hcfg in C1, C2, C3, C4. unfold cfg_of in C1, C2, C3, C4.
   cbn [fst snd] in C1, C2, C3, C4.
   destruct (s_in s) as [st|] eqn:Ein.
-  - pose proof HI as [(_ & Hm0 & _ & _ & Hin) _]. destruct (Hin st Ein) as (m & U & Hc & _ & _ & _ & Hmk & _).
-    pose proof HI' as [(_ & Hm0' & _ & _ & Hin') _]. destruct (Hin' st C2) as (m' & U' & Hc' & _ & _ & _ & Hmk' & _).
+  - pose proof HI as [(_ & Hm0 & _ & _ & Hin) _]. destruct (Hin st Ein) as (m & U & Hc & _ & _ & Hmk & _).
+    pose proof HI' as [(_ & Hm0' & _ & _ & Hin') _]. destruct (Hin' st C2) as (m' & U' & Hc' & _ & _ & Hmk' & _).
     rewrite (inv_spec s st m U q HI Ein Hc). rewrite C1 in Hc'. rewrite Hc in Hc'. inversion Hc'. subst m' U'.
     rewrite (inv_spec s' st m U q HI' C2). 2:{ rewrite C1. exact Hc. }
     f_equal. rewrite Hmk, Hmk', C3. destruct (s_masks s) as [mks|] eqn:Hms; [|reflexivity].
@@ -486,54 +492,74 @@ Proof.
 Qed.
 (* ... and both are the closed form [spec_obs] of the configuration, which is a function of the history's
    mutators alone [cfg_fold] *)
-Theorem repaired_is_spec h q m U st masks mask_n : Forall (photonic (R:=R)) h ->
+Theorem repaired_is_spec h q m U st masks mask_n :
   cfg_fold h = (Some (m, U), Some st, masks, mask_n) ->
-  sobs true true (srun true true h) q = spec_obs R m U (inst_of masks mask_n (total st)) st q.
+  sobs true true true (srun true true true h) q = spec_obs R m U (inst_of masks mask_n (total st)) st q.
 Proof.
-  intros Hp Hc. pose proof (inv_run h Hp) as HI. pose proof (cfg_run h Hp) as E. rewrite Hc in E.
+  intros Hc. pose proof (inv_run h) as HI. pose proof (cfg_run h) as E. rewrite Hc in E.
   unfold cfg_of in E. inversion E as [[E1 E2 E3 E4]].
   rewrite (inv_spec _ st m U q HI E2 E1). f_equal.
-  destruct HI as [(_ & _ & _ & _ & Hin) _]. destruct (Hin st E2) as (_ & _ & _ & _ & _ & _ & Hmk & _). exact Hmk.
+  destruct HI as [(_ & _ & _ & _ & Hin) _]. destruct (Hin st E2) as (_ & _ & _ & _ & _ & Hmk & _). exact Hmk.
 Qed.
-Theorem repaired_never_crashes h : Forall (photonic (R:=R)) h -> s_dead (srun true true h) = false.
-Proof. intros Hp. apply (inv_run h Hp). Qed.
+Theorem repaired_never_crashes (h : list (sop R)) : s_dead (srun true true true h) = false.
+Proof. apply (inv_run h). Qed.
 End SlosP.
 
-(* =============================== SLOS: the code as it is =============================== *)
-(* without set_mask / clear_mask the two repairs never fire: the faithful machine is the repaired machine *)
+(* =============================== SLOS: the code before the repairs =============================== *)
+(* without set_mask / clear_mask and without vacuum inputs none of the three repairs ever fires: the old code is the
+   current code *)
 Section NoMask.
 Variable R : cring.
 Definition no_mask_op (o : sop R) : Prop := match o with OMask _ _ | OClear => False | _ => True end.
 Definition NoMaskInv (s : sst R) : Prop :=
-  s_masks s = None /\ s_mask s = None /\ (forall b, s_built s = Some b -> b = None).
-Lemma preprocess_built (s : sst R) m U st : s_mask s = None -> (forall b, s_built s = Some b -> b = None) ->
-  forall b, s_built (preprocess s m U st) = Some b -> b = None.
+  s_masks s = None /\ s_mask s = None /\ (forall b, s_built s = Some b -> b = None) /\ (s_lv s = [] -> s_fsas s = []) /\
+  (forall st, s_in s = Some st -> (1 <= total st)%nat).
+Lemma preprocess_built c (s : sst R) m U st : s_mask s = None -> (forall b, s_built s = Some b -> b = None) ->
+  forall b, s_built (preprocess c s m U st) = Some b -> b = None.
 Proof. intros Hm Hb b. unfold preprocess. destruct (lookup_st st (s_paths s)); [apply Hb|]. simpl.
   destruct (s_built s) as [b0|]; [apply Hb | rewrite Hm; intros X; inversion X; reflexivity]. Qed.
-Lemma preprocess_masks (s : sst R) m U st : s_masks (preprocess s m U st) = s_masks s.
+Lemma preprocess_masks c (s : sst R) m U st : s_masks (preprocess c s m U st) = s_masks s.
 Proof. unfold preprocess. destruct (lookup_st st (s_paths s)); reflexivity. Qed.
-Lemma preprocess_mask (s : sst R) m U st : s_mask (preprocess s m U st) = s_mask s.
+Lemma preprocess_mask c (s : sst R) m U st : s_mask (preprocess c s m U st) = s_mask s.
 Proof. unfold preprocess. destruct (lookup_st st (s_paths s)); reflexivity. Qed.
-Lemma no_mask_step s o : NoMaskInv s -> no_mask_op o ->
-  sstep R false false s o = sstep R true true s o /\ NoMaskInv (fst (sstep R true true s o)).
+Lemma preprocess_in c (s : sst R) m U st : s_in (preprocess c s m U st) = s_in s.
+Proof. unfold preprocess. destruct (lookup_st st (s_paths s)); reflexivity. Qed.
+Lemma preprocess_fixC_eq (s : sst R) m U st : (s_lv s = [] -> s_fsas s = []) ->
+  preprocess false s m U st = preprocess true s m U st.
+Proof. intros H. unfold preprocess. destruct (lookup_st st (s_paths s)); [reflexivity|].
+  rewrite (deploy_lv_fixC_eq _ _ _ _ _ H). reflexivity. Qed.
+Lemma preprocess_lv_fsas c (s : sst R) m U st : (1 <= total st)%nat -> (s_lv s = [] -> s_fsas s = []) ->
+  s_lv (preprocess c s m U st) = [] -> s_fsas (preprocess c s m U st) = [].
+Proof. intros Hn H. unfold preprocess. destruct (lookup_st st (s_paths s)); [exact H|]. simpl.
+  intros X. exfalso. exact (deploy_lv_nonempty _ _ _ _ _ _ Hn X). Qed.
+Lemma no_mask_step s o : NoMaskInv s -> no_mask_op o -> photonic o ->
+  sstep R false false false s o = sstep R true true true s o /\ NoMaskInv (fst (sstep R true true true s o)).
 Proof.
-  intros (H1 & H2 & H3) Hn. destruct o as [m U|st|mks n| |q]; try contradiction.
+  intros (H1 & H2 & H3 & H4 & H5) Hn Hph. destruct o as [m U|st|mks n| |q]; try contradiction.
   - split; [reflexivity|]. unfold sstep. destruct (negb (slegal s (OCirc m U))); [repeat split; auto|].
     destruct (s_dead s); [repeat split; auto|]. cbn [fst].
-    match goal with |- context [if ?c then _ else _] => destruct c end; unfold NoMaskInv; simpl; repeat split; auto.
-    intros b X; discriminate.
-  - assert (E : sstep R false false s (OIn st) = sstep R true true s (OIn st)).
+    match goal with |- context [if ?c then _ else _] => destruct c end; unfold NoMaskInv; simpl; repeat split; auto;
+    intros; discriminate.
+  - assert (E : sstep R false false false s (OIn st) = sstep R true true true s (OIn st)).
     { unfold sstep. destruct (negb (slegal s (OIn st))); [reflexivity|]. destruct (s_dead s); [reflexivity|].
       destruct (s_circ s) as [[m U]|]; [|reflexivity]. rewrite H1, H2.
-      destruct (s_built s) as [b|] eqn:Hb; [|reflexivity]. rewrite (H3 b eq_refl). reflexivity. }
+      destruct (s_built s) as [b|] eqn:Hb.
+      - rewrite (H3 b eq_refl). cbn [minst_eqb negb andb]. rewrite preprocess_fixC_eq by exact H4. reflexivity.
+      - cbn [andb]. rewrite preprocess_fixC_eq by exact H4. reflexivity. }
     split; [exact E|]. rewrite <- E. unfold sstep. destruct (negb (slegal s (OIn st))); [repeat split; auto|].
     destruct (s_dead s); [repeat split; auto|]. destruct (s_circ s) as [[m U]|]; [|repeat split; auto]. rewrite H1, H2.
     cbn [andb fst]. unfold NoMaskInv.
     split. { rewrite preprocess_masks. reflexivity. }
     split. { rewrite preprocess_mask. reflexivity. }
-    apply preprocess_built; [reflexivity|exact H3].
+    split. { apply preprocess_built; [reflexivity|exact H3]. }
+    split. { apply preprocess_lv_fsas; [exact Hph|exact H4]. }
+    rewrite preprocess_in. simpl. intros st' X. inversion X. subst. exact Hph.
   - split; [reflexivity|]. pose proof (query_cfg R s q) as X. unfold cfg_of in X. inversion X as [[X1 X2 X3 X4]].
-    unfold NoMaskInv. rewrite X3. split; [exact H1|].
+    unfold NoMaskInv. rewrite X3, X2. split; [exact H1|].
+    assert (G : forall s' : sst R, s_mask s' = None /\ (forall b, s_built s' = Some b -> b = None) /\ (s_lv s' = [] -> s_fsas s' = []) ->
+                s_mask s' = None /\ (forall b, s_built s' = Some b -> b = None) /\ (s_lv s' = [] -> s_fsas s' = []) /\
+                (forall st, s_in s = Some st -> (1 <= total st)%nat)) by (intros s' (A & B & C); auto).
+    apply G. clear G.
     unfold sstep. destruct (negb (slegal s (OQuery q))); [auto|]. destruct (s_dead s); [auto|].
     destruct (s_in s); [|auto]. destruct (s_circ s) as [[m U]|]; [|auto].
     destruct q as [t| | |].
@@ -544,28 +570,34 @@ Proof.
     + destruct (lookup _ _); [|auto]. destruct (lookup_st _ _); [|auto]. cbn [fst].
       match goal with |- context [if ?c then _ else _] => destruct c end; auto.
 Qed.
-Lemma no_mask_fold h : forall s, NoMaskInv s -> Forall no_mask_op h ->
-  fold_left (fun s o => fst (sstep R false false s o)) h s = fold_left (fun s o => fst (sstep R true true s o)) h s /\
-  NoMaskInv (fold_left (fun s o => fst (sstep R true true s o)) h s).
-Proof. induction h as [|o h IH]; intros s HI Hn; simpl. auto. inversion Hn; subst.
-  destruct (no_mask_step s o HI H1) as [E HI']. rewrite E. apply IH; auto. Qed.
+Lemma no_mask_fold h : forall s, NoMaskInv s -> Forall no_mask_op h -> Forall (photonic (R:=R)) h ->
+  fold_left (fun s o => fst (sstep R false false false s o)) h s = fold_left (fun s o => fst (sstep R true true true s o)) h s /\
+  NoMaskInv (fold_left (fun s o => fst (sstep R true true true s o)) h s).
+Proof. induction h as [|o h IH]; intros s HI Hn Hp; simpl. auto. inversion Hn; subst. inversion Hp; subst.
+  destruct (no_mask_step s o HI H1 H3) as [E HI']. rewrite E. apply IH; auto. Qed.
 Lemma no_mask_init : NoMaskInv (sinit R).
-Proof. unfold NoMaskInv; simpl. repeat split; auto. intros b X; discriminate. Qed.
+Proof. unfold NoMaskInv; simpl. repeat split; auto; intros; discriminate. Qed.
 Theorem faithful_no_mask_history_free h q : Forall no_mask_op h -> Forall (photonic (R:=R)) h ->
-  sobs false false (srun false false h) q = sobs false false (srun false false (scanon (srun false false h))) q.
+  sobs false false false (srun false false false h) q
+  = sobs false false false (srun false false false (scanon (srun false false false h))) q.
 Proof.
-  intros Hn Hp. destruct (no_mask_fold h (sinit R) no_mask_init Hn) as [E HI].
-  change (fold_left (fun s o => fst (sstep R false false s o)) h (sinit R)) with (srun (R:=R) false false h) in E.
-  change (fold_left (fun s o => fst (sstep R true true s o)) h (sinit R)) with (srun (R:=R) true true h) in E, HI.
-  rewrite E. set (s := srun true true h) in *.
-  assert (Hc : Forall no_mask_op (scanon s)).
-  { unfold scanon. destruct HI as (H1 & _). rewrite H1. apply Forall_app; split.
-    destruct (s_circ s) as [[? ?]|]; repeat constructor. destruct (s_in s); repeat constructor. }
-  destruct (no_mask_fold (scanon s) (sinit R) no_mask_init Hc) as [E' HI'].
-  change (fold_left (fun s o => fst (sstep R false false s o)) (scanon s) (sinit R)) with (srun (R:=R) false false (scanon s)) in E'.
-  change (fold_left (fun s o => fst (sstep R true true s o)) (scanon s) (sinit R)) with (srun (R:=R) true true (scanon s)) in E', HI'.
-  rewrite E'. unfold sobs. rewrite (proj1 (no_mask_step s (OQuery q) HI I)).
-  rewrite (proj1 (no_mask_step _ (OQuery q) HI' I)). apply repaired_history_free. exact Hp.
+  intros Hn Hp. destruct (no_mask_fold h (sinit R) no_mask_init Hn Hp) as [E HI].
+  change (fold_left (fun s o => fst (sstep R false false false s o)) h (sinit R)) with (srun (R:=R) false false false h) in E.
+  change (fold_left (fun s o => fst (sstep R true true true s o)) h (sinit R)) with (srun (R:=R) true true true h) in E, HI.
+  rewrite E. set (s := srun true true true h) in *.
+  assert (HIs : Inv R s) by apply inv_run.
+  assert (Hc : Forall no_mask_op (scanon s) /\ Forall (photonic (R:=R)) (scanon s)).
+  { unfold scanon. pose proof HI as (H1 & _). rewrite H1. split; apply Forall_app; split;
+    try (destruct (s_circ s) as [[? ?]|]; repeat constructor).
+    all: destruct (s_in s) as [st|] eqn:Ein; [|constructor]; (constructor; [|constructor]); try exact I;
+      destruct HI as (_ & _ & _ & _ & H5); apply H5; exact Ein. }
+  destruct Hc as [Hc Hcp].
+  destruct (no_mask_fold (scanon s) (sinit R) no_mask_init Hc Hcp) as [E' HI'].
+  change (fold_left (fun s o => fst (sstep R false false false s o)) (scanon s) (sinit R)) with (srun (R:=R) false false false (scanon s)) in E'.
+  change (fold_left (fun s o => fst (sstep R true true true s o)) (scanon s) (sinit R)) with (srun (R:=R) true true true (scanon s)) in E', HI'.
+  rewrite E'. unfold sobs.
+  rewrite (proj1 (no_mask_step s (OQuery q) HI I I)).
+  rewrite (proj1 (no_mask_step _ (OQuery q) HI' I I)). apply repaired_history_free.
 Qed.
 End NoMask.
 
@@ -594,10 +626,10 @@ Lemma sout_eqb_refl o : sout_eqb o o = true.
 Proof. destruct o; simpl; auto. rewrite qi_eqb_refl, !state_eqb_refl. reflexivity.
   rewrite rows_eqb_refl, state_eqb_refl. reflexivity. Qed.
 Definition differs_from_fresh (h : list (sop QI)) (q : squery) : bool :=
-  negb (sout_eqb (sobs false false (srun false false h) q)
-                 (sobs false false (srun false false (scanon (srun false false h))) q)).
+  negb (sout_eqb (sobs false false false (srun false false false h) q)
+                 (sobs false false false (srun false false false (scanon (srun false false false h))) q)).
 Lemma differs_neq h q : differs_from_fresh h q = true ->
-  sobs false false (srun false false h) q <> sobs false false (srun false false (scanon (srun false false h))) q.
+  sobs false false false (srun false false false h) q <> sobs false false false (srun false false false (scanon (srun false false false h))) q.
 Proof. unfold differs_from_fresh. intros H E. rewrite E, sout_eqb_refl in H. discriminate. Qed.
 
 Local Open Scope nat_scope.
@@ -616,21 +648,23 @@ Theorem faithful_refuted :
   differs_from_fresh w_growth (QAmp [1; 1]) = true /\ differs_from_fresh w_growth QDist = true /\
   differs_from_fresh w_shrink QDist = true /\ differs_from_fresh w_shrink (QAmp [0; 1]) = true /\
   differs_from_fresh w_remask QDist = true /\
-  s_dead (srun (R:=QI) false false w_crash) = true /\
-  s_dead (srun (R:=QI) false false (scanon (srun false false w_crash))) = false.
+  s_dead (srun (R:=QI) false false false w_crash) = true /\
+  s_dead (srun (R:=QI) false false false (scanon (srun false false false w_crash))) = false.
 Proof.
   repeat split; try (repeat constructor; simpl; lia); vm_compute; reflexivity.
 Qed.
 
-(* the code as it is now: a vacuum input first, under a mask with an explicit n that needs more photons than n, leaves
-   an empty level-0 array behind (the mask instance does not change, so nothing is reset): the next input crashes *)
+(* the code between 1c6530fa and f2cccc2b (repairs A and B, not C): a vacuum input first, under a mask with an explicit
+   n that needs more photons than n, left an empty level-0 array behind (the mask instance does not change, so nothing
+   is reset): the next input crashed.  With repair C (the code as it is now) it does not. *)
 Definition w_vacuum : list (sop QI) := [OCirc 2 U345; OMask [[Some 2; None]] (Some 1); OIn [0; 0]; OIn [1; 0]].
-Theorem current_vacuum_first_refuted :
-  s_dead (srun (R:=QI) true true w_vacuum) = true /\
-  s_dead (srun (R:=QI) true true (scanon (srun true true w_vacuum))) = false.
-Proof. split; vm_compute; reflexivity. Qed.
+Theorem vacuum_first_refuted_before_C :
+  s_dead (srun (R:=QI) true true false w_vacuum) = true /\
+  s_dead (srun (R:=QI) true true false (scanon (srun true true false w_vacuum))) = false /\
+  s_dead (srun (R:=QI) true true true w_vacuum) = false.
+Proof. repeat split; vm_compute; reflexivity. Qed.
 Theorem faithful_refuted_neq : exists (h : list (sop QI)) q, Forall (photonic (R:=QI)) h /\
-  sobs false false (srun false false h) q <> sobs false false (srun false false (scanon (srun false false h))) q.
+  sobs false false false (srun false false false h) q <> sobs false false false (srun false false false (scanon (srun false false false h))) q.
 Proof. exists w_growth, (QAmp [1; 1]). split. apply faithful_refuted. apply differs_neq. apply faithful_refuted. Qed.
 Lemma partial_hypotheses_satisfiable : exists h : list (sop QI),
   Forall (no_mask_op QI) h /\ Forall (photonic (R:=QI)) h /\ length h = 4.
@@ -802,14 +836,16 @@ Qed.
 Lemma canon_lv_closed m b n : chain_closed m (canon_lv m b n) = true.
 Proof. unfold canon_lv. apply chain_closed_ok. intros u j. apply fsarray_pred0. Qed.
 
-Theorem repaired_chain_closed (R : cring) (h : list (sop R)) st m U : Forall (photonic (R:=R)) h ->
-  s_in (srun true true h) = Some st -> s_circ (srun true true h) = Some (m, U) ->
-  chain_closed m (firstn (S (total st)) (s_lv (srun true true h))) = true.
+Theorem repaired_chain_closed (R : cring) (h : list (sop R)) st m U :
+  s_in (srun true true true h) = Some st -> s_circ (srun true true true h) = Some (m, U) ->
+  chain_closed m (firstn (S (total st)) (s_lv (srun true true true h))) = true.
 Proof.
-  intros Hp Ein Hc. pose proof (inv_run R h Hp) as [(Hd & Hm0 & Hwf & Hm1 & Hin) HCa].
-  destruct (Hin st Ein) as (m' & U' & Hc' & _ & _ & _ & _ & Hb & Hlk).
+  intros Ein Hc. pose proof (inv_run R h) as [(Hd & Hm0 & Hwf & Hm1 & Hin) HCa].
+  destruct (Hin st Ein) as (m' & U' & Hc' & _ & _ & _ & Hb & Hlk).
   unfold CacheInv in HCa. rewrite Hb in HCa. destruct HCa as (m0 & U0 & L & Hc0 & Hlv & Hf & Hi & Hp').
   rewrite Hc in Hc0. inversion Hc0. subst m0 U0.
-  destruct (lookup_st st (s_paths (srun true true h))) as [U1|] eqn:El; [|congruence].
-  destruct (Hp' st U1 El) as (_ & HL & _). rewrite Hlv, firstn_canon by exact HL. apply canon_lv_closed.
+  destruct (lookup_st st (s_paths (srun true true true h))) as [U1|] eqn:El; [|congruence].
+  destruct (Hp' st U1 El) as (_ & HL & _). destruct Hlv as [[Hl0 _]|Hl1].
+  - rewrite Hl0. destruct (total st); reflexivity.
+  - rewrite Hl1, firstn_canon by exact HL. apply canon_lv_closed.
 Qed.
